@@ -463,6 +463,9 @@ func (st *Style) expr(e *E) string {
 		}
 		return "false"
 	case "int":
+		if e.Str != "" && e.Int >= 0 { // a chosen spelling of the literal (leading zeros)
+			return e.Str
+		}
 		return strconv.FormatInt(e.Int, 10)
 	case "float":
 		return fmtFloat(e.Float)
